@@ -103,7 +103,7 @@ def main():
         for p in props:
             shutil.rmtree(bd, ignore_errors=True)
             t0 = time.time()
-            rc, o = sh(["./check", p, "--tier", tier], cwd="/verif", env=dict(ENV, VERIF_REPO=wt, VERIF_BUILD=bd), timeout=7200)
+            rc, o = sh(["./check", p, "--tier", tier], cwd=os.environ.get("VERIF_HOME", "/verif"), env=dict(ENV, VERIF_REPO=wt, VERIF_BUILD=bd), timeout=7200)
             lines = [l for l in o.splitlines() if l.startswith(("VIOLATION", "OK"))][:4] + [l[:160] for l in o.splitlines() if l.startswith("KNOWN-FINDING")][:3]
             out["checks"][p] = dict(rc=rc, lines=lines, wall=round(time.time() - t0))
             shutil.rmtree(bd, ignore_errors=True)
